@@ -80,10 +80,12 @@ def build_driver(force=False):
     out = os.path.join(BUILD, "ravendrv")
     if _drv_built and not force:
         return out
-    ov = overlay_json()
-    t0 = time.time()
-    rc, log = sh([GO, "build", "-tags", "verif", "-overlay", ov, "-o", out, "./cmd/verifdrv"],
-                 cwd=REPO, env=go_env(), timeout=1200)
+    with Lock("drv"):
+        ov = overlay_json()
+        rc, log = sh([GO, "build", "-tags", "verif", "-overlay", ov, "-o", out + ".new", "./cmd/verifdrv"],
+                     cwd=REPO, env=go_env(), timeout=1200)
+        if rc == 0:
+            os.replace(out + ".new", out)
     if rc != 0:
         raise BuildError("go build of the driver failed:\n" + log[-6000:])
     _drv_built = True
@@ -160,14 +162,49 @@ def coq_opt(x):
 _coq_made = False
 
 
+class Lock:
+    """flock on build/<name>.lock so that checks running side by side do not
+    race on make / go build."""
+    def __init__(self, name):
+        os.makedirs(BUILD, exist_ok=True)
+        self.path = os.path.join(BUILD, name + ".lock")
+
+    def __enter__(self):
+        import fcntl
+        self.fh = open(self.path, "w")
+        fcntl.flock(self.fh, fcntl.LOCK_EX)
+        return self
+
+    def __exit__(self, *a):
+        import fcntl
+        fcntl.flock(self.fh, fcntl.LOCK_UN)
+        self.fh.close()
+
+
+def write_coqproject():
+    """_CoqProject lists every .v under coq/ (coqdep orders them); rewritten
+    only when the set of files changed."""
+    files = sorted(os.path.relpath(f, COQ) for f in glob.glob(os.path.join(COQ, "*", "*.v")))
+    txt = "-R . Raven\n-arg -w -arg -notation-overridden,-deprecated-hint-without-locality,-deprecated-instance-without-locality\n" + "\n".join(files) + "\n"
+    path = os.path.join(COQ, "_CoqProject")
+    old = open(path).read() if os.path.exists(path) else ""
+    if old != txt:
+        with open(path, "w") as fh:
+            fh.write(txt)
+        return True
+    return False
+
+
 def coq_make():
     """Full (incremental) .vo build of the development; never -vos."""
     global _coq_made
     if _coq_made:
         return 0, ""
-    if not os.path.exists(os.path.join(COQ, "Makefile")):
-        sh("coq_makefile -f _CoqProject -o Makefile", cwd=COQ, check=True)
-    rc, log = sh("timeout 3000 make -j16 2>&1", cwd=COQ, timeout=3100)
+    with Lock("coq"):
+        changed = write_coqproject()
+        if changed or not os.path.exists(os.path.join(COQ, "Makefile")):
+            sh("coq_makefile -f _CoqProject -o Makefile", cwd=COQ, check=True)
+        rc, log = sh("timeout 3000 make -j16 2>&1", cwd=COQ, timeout=3100)
     _coq_made = rc == 0
     return rc, log
 
@@ -244,7 +281,7 @@ def parse_coq_list_out(log, ident):
 # known findings
 
 def load_findings(pid):
-    path = os.path.join(VERIF, "KNOWN_FINDINGS.txt")
+    path = os.path.join(VERIF, "known_findings", pid + ".txt")
     out = {}
     if not os.path.exists(path):
         return out
